@@ -662,6 +662,8 @@ def record(w, node, op, v):
         sub.count('undecided'); sub.count('undecided:' + v[1]); return
     if v[0] == 'ok':
         sub.count('agreed')
+        if node.steps and len(node.R) > 1 and len(sub.samples) < 1 and op.get('t') == 'window':
+            sub.sample(dict(dataset=node.ds, base_query=node.base.q.source('gen'), chain=chain_text(node.base, node.steps, op), full_result_of_predecessor=node.R, verdict='agrees'))
         if not v[1]: sub.count('agreed_up_to_ties_or_unspecified_order')
         if len(node.R): sub.count('nontrivial')
         return
